@@ -198,7 +198,8 @@ CONNS = [" close", " keep-alive", " Keep-Alive", " CLOSE", " upgrade", " close, 
 STATUSES = ["200 OK", "404 Not Found", "304 Not Modified", "204 No Content", "100 Continue", "500 ", "201 Created",
             "199 x", "999 Weird thing", "301 Moved Permanently", "200 O K  ", "418 I'm a teapot", "101 Switching Protocols"]
 BAD_STATUSES = ["200", "2OO OK", "099 X", "200  two", "200 OK\r\nX: y", "200 \xe9", "", " 200 OK", "20 OK", "2000 OK",
-                "abc def", "200\tOK", "200 a\nb", "0 z", "7 seven", "200 \u20ac", "000 x", "304", "30x y"]
+                "abc def", "200\tOK", "200 a\nb", "0 z", "7 seven", "200 \u20ac", "000 x", "304", "30x y",
+                "200 a\x00b", "200 a\tb", "200 \x7f", "404 \x1fx", "200 \xff\x80", "500 \u0100", "200 \x0b"]
 APP_HDRS = [("Content-Type", "text/plain"), ("content-type", "a/b"), ("X-A", "1"), ("x-a", "2"), ("X-B", "q"),
             ("Set-Cookie", "a=1"), ("set-cookie", "b=2"), ("Server", "mine"), ("SERVER", "other"), ("X-Empty", ""),
             ("ETag", "\"x\""), ("X-L", "\xe9"), ("Location", "/x y"), ("x_a", "3"), ("X-A", "a, b"), ("Vary", "*"),
@@ -313,6 +314,10 @@ FIXED_WITNESSES = [
     mk(method="HEAD", v11=False, start=("404 Not Found", [("Content-Type", "a/b")]), written=["w"], chunks=["x", "yz"]),
     mk(uri="/caf\xc3\xa9"),
     mk(uri="/\xe9%e9\xff?\xe9"),
+    # fix 92da2a1: reason phrases outside the reason-phrase grammar are refused by write_headers
+    mk(start=("200 \u20ac", [])),
+    mk(start=("200 a\x00b", [])),
+    mk(start=("200 caf\xe9\tx", [])),
 ]
 
 
